@@ -1,0 +1,116 @@
+//go:build verif
+
+package server
+
+// Verification hooks (build tag "verif"): exported entry points to the
+// unexported request handlers and receive loops, and a read-only snapshot of
+// the timestamp store. Nothing here is compiled into normal builds.
+
+import (
+	"context"
+	"crypto/tls"
+	"log/slog"
+	"net"
+	"sort"
+	"time"
+
+	"example.com/scion-time/net/ntp"
+	"example.com/scion-time/net/ntske"
+	"example.com/scion-time/net/scion"
+)
+
+const (
+	VerifTSSCap     = tssCap
+	VerifTSSItemCap = tssItemCap
+)
+
+func VerifHandleRequest(clientID string, req *ntp.Packet, rxt, txt *time.Time, resp *ntp.Packet) {
+	handleRequest(clientID, req, rxt, txt, resp)
+}
+
+func VerifUpdateTXTimestamp(clientID string, rxt time.Time, txt *time.Time) {
+	updateTXTimestamp(clientID, rxt, txt)
+}
+
+type VerifTSSPair struct {
+	Rx, Tx ntp.Time64
+}
+
+type VerifTSSItem struct {
+	Key   string
+	Pairs []VerifTSSPair
+	Qval  ntp.Time64
+	Qidx  int
+}
+
+type VerifTSSSnapshot struct {
+	Items []VerifTSSItem // map contents, sorted by key
+	Queue []string       // keys in heap-array order
+	Qidx  []int          // qidx of the queue entries, same order
+}
+
+// VerifSnapshotTSS copies the timestamp store under its mutex.
+func VerifSnapshotTSS() VerifTSSSnapshot {
+	tssMu.Lock()
+	defer tssMu.Unlock()
+	var s VerifTSSSnapshot
+	for _, it := range tss {
+		x := VerifTSSItem{Key: it.key, Qval: it.qval, Qidx: it.qidx}
+		for i := 0; i < it.len && i < len(it.buf); i++ {
+			x.Pairs = append(x.Pairs, VerifTSSPair{it.buf[i].rxt, it.buf[i].txt})
+		}
+		if it.len > len(it.buf) || it.len < 0 {
+			x.Pairs = nil
+			x.Qidx = -1000 - it.len
+		}
+		s.Items = append(s.Items, x)
+	}
+	sort.Slice(s.Items, func(i, j int) bool { return s.Items[i].Key < s.Items[j].Key })
+	for _, it := range tssQ {
+		if it == nil {
+			s.Queue = append(s.Queue, "<nil>")
+			s.Qidx = append(s.Qidx, -1)
+			continue
+		}
+		s.Queue = append(s.Queue, it.key)
+		s.Qidx = append(s.Qidx, it.qidx)
+	}
+	return s
+}
+
+// VerifResetTSS empties the timestamp store (one execution = one fresh store).
+func VerifResetTSS() {
+	tssMu.Lock()
+	defer tssMu.Unlock()
+	tss = make(map[string]*tssItem)
+	for i := range tssQ {
+		tssQ[i] = nil
+	}
+	tssQ = tssQ[:0]
+}
+
+func VerifRunIPServer(ctx context.Context, log *slog.Logger,
+	conn *net.UDPConn, iface string, dscp uint8, provider *ntske.Provider) {
+	runIPServer(ctx, log, newIPServerMetrics(), conn, iface, dscp, provider)
+}
+
+func VerifRunSCIONServer(ctx context.Context, log *slog.Logger,
+	conn *net.UDPConn, localHostIface string, localHostPort int, dscp uint8,
+	fetcher *scion.Fetcher, provider *ntske.Provider) {
+	runSCIONServer(ctx, log, newSCIONServerMetrics(), conn, localHostIface, localHostPort, dscp, fetcher, provider)
+}
+
+func VerifRunCSPTPServerIP(ctx context.Context, log *slog.Logger,
+	conn *net.UDPConn, localHostIface string, localHostPort int, dscp uint8) {
+	runCSPTPServerIP(ctx, log, &udpConn{c: conn}, localHostIface, localHostPort, dscp)
+}
+
+func VerifHandleKeyExchangeTLS(ctx context.Context, log *slog.Logger, conn *tls.Conn, localPort int, provider *ntske.Provider) {
+	handleKeyExchangeTLS(ctx, log, conn, localPort, provider)
+}
+
+func VerifNewNTSKEMsg(ctx context.Context, log *slog.Logger,
+	localIP net.IP, localPort int, data *ntske.Data, provider *ntske.Provider) (
+	ntske.ExchangeMsg, error) {
+	return newNTSKEMsg(ctx, log, localIP, localPort, data, provider)
+}
